@@ -203,7 +203,41 @@ func c10StartServer(dir string, cfg c10Cfg, imp *c10Imp) (tcpAddr, udpAddr strin
 		return "", "", fmt.Errorf("udp adapter on %s does not answer", udpAddr)
 	}
 	rogger.SetLevel(rogger.OFF)
+	if err := c10ProveOurs(tcpAddr, udpAddr, imp); err != nil {
+		return "", "", err
+	}
 	return tcpAddr, udpAddr, nil
+}
+
+// Between probing a free port and the server's bind another process (a dozen harnesses run side by side) can take
+// the port: something answers there, but not this process's server. A call of the scripted servant with a token of its
+// own must show up in this process's invocation log, over each transport, before any scenario is run.
+func c10ProveOurs(tcpAddr, udpAddr string, imp *c10Imp) error {
+	for k, pa := range [][2]string{{"tcp", tcpAddr}, {"udp", udpAddr}} {
+		token := int32(-1000 - k)
+		q := c10Req{Ver: c10VerTars, Func: "calc", ID: 77, Token: token, Servant: "probe"}
+		c10Encode(&q)
+		seen := false
+		for try := 0; try < 40 && !seen; try++ {
+			c, err := net.DialTimeout(pa[0], pa[1], time.Second)
+			if err != nil {
+				time.Sleep(50 * time.Millisecond)
+				continue
+			}
+			c.Write(q.Pkg)
+			for w := 0; w < 25 && !seen; w++ {
+				time.Sleep(10 * time.Millisecond)
+				imp.mu.Lock()
+				seen = imp.finished[token] > 0
+				imp.mu.Unlock()
+			}
+			c.Close()
+		}
+		if !seen {
+			return fmt.Errorf("%s %s is not served by this process (port taken by another process?)", pa[0], pa[1])
+		}
+	}
+	return nil
 }
 
 // ---------- sched scenarios: a TarsServer of our own around a recording wrapper of the real Protocol ----------
@@ -266,6 +300,9 @@ func c10StartSched(cfg c10Cfg, imp *c10Imp) (w *c10Wrap, tcpAddr, udpAddr string
 		go srv.Serve()
 	}
 	rogger.SetLevel(rogger.OFF)
+	if err := c10ProveOurs(tcpAddr, udpAddr, imp); err != nil {
+		return nil, "", "", err
+	}
 	return w, tcpAddr, udpAddr, nil
 }
 
@@ -383,6 +420,16 @@ func c10RunOnce(s *c10Scn, addr string, imp *c10Imp) error {
 		wg.Add(1)
 		go func(ci int) {
 			defer wg.Done()
+			if s.StaggerMs > 0 && ci > 0 {
+				time.Sleep(time.Duration(ci*s.StaggerMs) * time.Millisecond)
+			}
+			if s.HalfClose && ci > 0 {
+				defer func() {
+					if tc, ok := conns[ci].(*net.TCPConn); ok {
+						tc.CloseWrite() // FIN: the server's receive loop for this connection sees EOF
+					}
+				}()
+			}
 			var stream []byte
 			for i := range s.Reqs {
 				if i%s.Conns != ci {
